@@ -85,6 +85,15 @@ fn main() {
                 std::process::exit(3);
             }
         }
+        #[cfg(not(feature = "loomq"))]
+        Some("bfs") => {
+            let v: Value = serde_json::from_str(&args[2]).expect("cfg json");
+            let c = seq::Cfg::from_json(&v).expect("cfg");
+            let depth: usize = args[3].parse().unwrap();
+            let mut rep = Report::new("C05", "debug", "quick");
+            let ex = seq::bfs(&c, depth, seq::budget("quick", 60, 60), &mut rep, "debug", false);
+            println!("states {} transitions {} violations {:?}", ex.states, ex.transitions, rep.violations.iter().map(|v| (&v.signature, &v.detail)).collect::<Vec<_>>());
+        }
         // internal: one loom scenario in its own process
         Some("loom-one") => {
             #[cfg(feature = "loomq")]
